@@ -1,6 +1,6 @@
 """C11 -- relaxation and multigrid are consistent, contractive iterations."""
 from pyvc import solve
-from contracts import relaxation_cy, solvers
+from contracts import relaxation_cy, solvers, hierarchical
 
 LEVEL = 'proof'
 BOUNDED_MODULE = 'bounded.C11'
@@ -22,7 +22,9 @@ def contracts(tier):
 
 def extra_obligations(tier):
     return [solve.custom_result('relaxation_cy:gauss_seidel[lemma]', relaxation_cy.F, 'gauss_seidel', relaxation_cy.fixed_point_lemma),
-            solve.custom_result('solvers:gauss_seidel[symmetric]', solvers.F, 'gauss_seidel', solvers.gs_symmetric_obligations)]
+            solve.custom_result('solvers:gauss_seidel[symmetric]', solvers.F, 'gauss_seidel', solvers.gs_symmetric_obligations),
+            # the smoothing sets and Dirichlet tables of the local multigrid are memoized on the HSpace: refine() must invalidate all of them
+            solve.custom_result('hierarchical:HSpace[cache-invalidation]', hierarchical.F, 'HSpace.refine / _clear_cache', hierarchical.cache_invalidation_obligations)]
 
 
 MANIFEST = {
